@@ -1,17 +1,1865 @@
-//! Engine `read` — placeholder (not written yet).
+//! Engine `read` (property C01): reading a minidump is total — no panic, hang or runaway
+//! allocation on any bytes.
+//!
+//! case line:   `read <hex(bytes)> [cat=<generator category>]`
+//! model line:  `read <hex(bytes)> sizes:<size_of of the 19 element types>`
+//!
+//! `exec` runs the REAL reader on a watchdogged worker thread with the counting allocator on:
+//!   phase A (compared with the Lean model `MdModel.Dump.readAll`): `Minidump::read`, then
+//!           `get_stream` of the eleven modelled stream types, rendered canonically; `get_memory`;
+//!           the exception printer's parameter loop and `get_crash_address`.
+//!   phase B (oracle only): `get_stream` of every other stream type the crate exports, every
+//!           accessor named in the property's `observe_at`, every `print` (the `--dump` path).
+//! Oracle (independent of the model): no panic anywhere (`catch_unwind`, site recorded), the case
+//! ends within the time budget, and per operation the largest single allocator request is
+//! ≤ `K_SINGLE`·n + `C_SINGLE` and the total requested ≤ `K_TOTAL`·n² + `C_TOTAL_LIN`·n + `C_TOTAL`
+//! (n = input length); a worker that asks for more than 512 MiB at once / 1 GiB in total is parked
+//! by the allocator guard and reported as `alloc-runaway:<operation>`.
+//! Tie of the model's allocation log: every *exact* allocation the model predicts (≥ 256 bytes)
+//! must be among the real allocator requests of phase A (`same`).
+
+use crate::allocmeter as meter;
 use crate::common::*;
+use minidump::format as md;
+use minidump::system_info::{Cpu, Os};
+use minidump::*;
+use minidump_synth as synth;
+use std::fmt::Write as _;
+use std::io::Write;
+use std::sync::{mpsc, Arc, Once};
+use std::time::{Duration, Instant};
+use test_assembler::{Endian as TEndian, Section};
 
 pub struct Read;
+
+// ------------------------------------------------------------------------------------- oracle
+
+/// largest single request allowed: `K_SINGLE * n + C_SINGLE` bytes (`K_SINGLE` = the `K` of the
+/// Lean theorem `alloc_backed`; over 77 000 generated cases the real reader stays below 4n + 64 KiB)
+const K_SINGLE: u64 = 32;
+const C_SINGLE: u64 = 64 * 1024;
+/// total requested allowed per operation: `K_TOTAL * n^2 + C_TOTAL_LIN * n + C_TOTAL` bytes. The
+/// worst quadratic families that can be built for the modelled streams (aliased module names /
+/// CodeView records / handle chains) stay below 0.1 n^2; generated cases never leave the linear part.
+const K_TOTAL: u64 = 2;
+const C_TOTAL_LIN: u64 = 1024;
+const C_TOTAL: u64 = 4 * 1024 * 1024;
+/// per-case time budget (a hang never ends, so the exact figure only has to absorb machine load)
+fn time_budget(n: usize) -> Duration {
+    Duration::from_millis(20_000 + (n as u64) / 10)
+}
+
+/// worker threads left behind (parked by the allocator guard, or spinning); beyond `MAX_STUCK` the
+/// remaining cases of the run are skipped — the run has failed already.
+static STUCK: std::sync::atomic::AtomicUsize = std::sync::atomic::AtomicUsize::new(0);
+const MAX_STUCK: usize = 6;
+
+thread_local! {
+    static LAST_PANIC: std::cell::RefCell<String> = const { std::cell::RefCell::new(String::new()) };
+}
+
+/// Quiet panic hook that remembers where the panic happened (file:line: message).
+fn install_hook() {
+    static ONCE: Once = Once::new();
+    ONCE.call_once(|| {
+        std::panic::set_hook(Box::new(|info| {
+            let loc = info.location().map(|l| format!("{}:{}", l.file(), l.line())).unwrap_or_default();
+            let msg = if let Some(s) = info.payload().downcast_ref::<&str>() {
+                s.to_string()
+            } else if let Some(s) = info.payload().downcast_ref::<String>() {
+                s.clone()
+            } else {
+                "panic".to_string()
+            };
+            LAST_PANIC.with(|p| *p.borrow_mut() = format!("{loc}: {msg}"));
+        }));
+    });
+}
+
+struct Out {
+    oracle: Vec<(String, String)>,
+    tags: Vec<String>,
+    /// input length
+    n: u64,
+    shared: Arc<meter::Shared>,
+    /// phase B: the allocator is read out after every guarded operation
+    per_op: bool,
+    /// phase B totals (sum over the operations), for the distribution
+    b: meter::Stats,
+}
+
+fn alloc_limits(n: u64) -> (u64, u64) {
+    (K_SINGLE * n + C_SINGLE, K_TOTAL.saturating_mul(n).saturating_mul(n) + C_TOTAL_LIN * n + C_TOTAL)
+}
+
+impl Out {
+    fn check_alloc(&mut self, what: &str, st: &meter::Stats) {
+        let (lim_single, lim_total) = alloc_limits(self.n);
+        let n = self.n;
+        if st.max > lim_single && self.oracle.len() < 8 {
+            self.oracle.push((format!("alloc-single:{what}"), format!("{what}: one request of {} bytes for a {n}-byte input (limit {lim_single})", st.max)));
+        }
+        if st.total > lim_total && self.oracle.len() < 8 {
+            self.oracle.push((format!("alloc-total:{what}"), format!("{what}: {} bytes requested in total for a {n}-byte input (limit {lim_total} = {K_TOTAL}n^2+{C_TOTAL_LIN}n+{C_TOTAL})", st.total)));
+        }
+    }
+
+    /// run `f`; a panic becomes an oracle failure of class `panic` naming `what` and the site
+    fn guard<T>(&mut self, what: &str, f: impl FnOnce() -> T) -> Option<T> {
+        if let Ok(mut g) = self.shared.current_op.lock() {
+            g.clear();
+            g.push_str(what);
+        }
+        let r = catch(f);
+        if self.per_op {
+            let st = meter::lap();
+            self.check_alloc(what, &st);
+            self.b.total += st.total;
+            self.b.count += st.count;
+            self.b.max = self.b.max.max(st.max);
+        }
+        match r {
+            Ok(v) => Some(v),
+            Err(_) => {
+                let site = LAST_PANIC.with(|p| p.borrow().clone());
+                if self.oracle.len() < 8 {
+                    self.oracle.push(("panic".into(), format!("{what} panicked at {site}")));
+                }
+                None
+            }
+        }
+    }
+}
+
+struct Sink(u64);
+impl Write for Sink {
+    fn write(&mut self, b: &[u8]) -> std::io::Result<usize> {
+        self.0 += b.len() as u64;
+        Ok(b.len())
+    }
+    fn flush(&mut self) -> std::io::Result<()> {
+        Ok(())
+    }
+}
+
+// ---------------------------------------------------------------------------- canonical output
+
+fn name_hex(s: &str) -> String {
+    let mut out = String::new();
+    for (i, c) in s.chars().enumerate() {
+        if i > 0 {
+            out.push('.');
+        }
+        let _ = write!(out, "{:x}", c as u32);
+    }
+    out
+}
+
+fn opt_name(s: &Option<String>) -> String {
+    match s {
+        None => "-".into(),
+        Some(s) => format!("={}", name_hex(s)),
+    }
+}
+
+/// length of the private `context: Option<&[u8]>` field, read off the derived `Debug` output
+fn debug_context_len(dbg: &str, after: &str) -> String {
+    let Some(p) = dbg.find(after) else { return "?".into() };
+    let rest = &dbg[p + after.len()..];
+    if rest.starts_with("None") {
+        return "-".into();
+    }
+    let Some(rest) = rest.strip_prefix("Some([") else { return "?".into() };
+    let Some(end) = rest.find("])") else { return "?".into() };
+    let inner = &rest[..end];
+    if inner.is_empty() {
+        "0".into()
+    } else {
+        (inner.matches(',').count() + 1).to_string()
+    }
+}
+
+/// render a list; the rendering is the harness's own work and is not metered
+fn items<T>(xs: impl Iterator<Item = T>, f: impl Fn(T) -> String) -> String {
+    meter::unmetered(|| {
+        let mut s = String::from("ok[");
+        for x in xs {
+            s.push_str(&f(x));
+            s.push(';');
+        }
+        s.push(']');
+        s
+    })
+}
+
+fn err_name(e: &Error) -> String {
+    format!("err {}", e.name())
+}
+
+type Dump<'a> = Minidump<'a, &'a [u8]>;
+
+fn show_dir(dump: &Dump) -> String {
+    let mut sink = meter::unmetered(|| Vec::with_capacity(1024 + 400 * dump.header.stream_count.min(1 << 16) as usize));
+    let _ = dump.print(&mut sink);
+    meter::unmetered(|| show_dir_text(dump, &sink))
+}
+
+fn show_dir_text(dump: &Dump, sink: &[u8]) -> String {
+    let text = String::from_utf8_lossy(sink);
+    let mut idxs = Vec::new();
+    if let Some(p) = text.find("Streams:\n") {
+        for line in text[p..].lines().skip(1) {
+            if let Some(q) = line.rfind(" at index ") {
+                idxs.push(line[q + 10..].trim().to_string());
+            }
+        }
+    }
+    let dirs: Vec<_> = dump.all_streams().collect();
+    let mut parts = Vec::new();
+    for (i, d) in dirs.iter().enumerate() {
+        parts.push(format!(
+            "{}@{}:{}:{}",
+            d.stream_type,
+            idxs.get(i).map(|s| s.as_str()).unwrap_or("?"),
+            d.location.data_size,
+            d.location.rva
+        ));
+    }
+    format!("dir:[{}]", parts.join(","))
+}
+
+fn show_threads(dump: &Dump) -> String {
+    match dump.get_stream::<MinidumpThreadList>() {
+        Err(e) => err_name(&e),
+        Ok(l) => {
+            let empty = UnifiedMemoryList::default();
+            items(l.threads.iter(), |t| {
+                let dbg = format!("{:?}", t);
+                let ctx = debug_context_len(&dbg, " }, context: ");
+                let stk = match t.stack_memory(&empty) {
+                    None => "-".to_string(),
+                    Some(m) => format!("{}:{}", m.base_address(), m.size()),
+                };
+                format!("{}/{}/{}/{}", t.raw.thread_id, t.raw.teb, ctx, stk)
+            })
+        }
+    }
+}
+
+fn show_modules(dump: &Dump) -> String {
+    match dump.get_stream::<MinidumpModuleList>() {
+        Err(e) => err_name(&e),
+        Ok(l) => items(l.iter(), |m| {
+            let cv = match &m.codeview_info {
+                None => "-".to_string(),
+                Some(CodeView::Pdb70(_)) => "pdb70".into(),
+                Some(CodeView::Pdb20(_)) => "pdb20".into(),
+                Some(CodeView::Elf(_)) => "elf".into(),
+                Some(CodeView::Unknown(v)) => format!("unk{}", v.len()),
+            };
+            format!("{}/{}/{}/{}", m.raw.base_of_image, m.raw.size_of_image, name_hex(&m.name), cv)
+        }),
+    }
+}
+
+fn show_unloaded(dump: &Dump) -> String {
+    match dump.get_stream::<MinidumpUnloadedModuleList>() {
+        Err(e) => err_name(&e),
+        Ok(l) => items(l.iter(), |m| format!("{}/{}/{}", m.raw.base_of_image, m.raw.size_of_image, name_hex(&m.name))),
+    }
+}
+
+fn show_memory(dump: &Dump) -> String {
+    match dump.get_stream::<MinidumpMemoryList>() {
+        Err(e) => err_name(&e),
+        Ok(l) => items(l.iter(), |r| format!("{}/{}/{}", r.base_address, r.size, r.desc.memory.rva)),
+    }
+}
+
+fn show_memory64(dump: &Dump, all: &[u8]) -> String {
+    match dump.get_stream::<MinidumpMemory64List>() {
+        Err(e) => err_name(&e),
+        Ok(l) => items(l.iter(), |r| {
+            let rva = (r.bytes.as_ptr() as usize).wrapping_sub(all.as_ptr() as usize);
+            format!("{}/{}/{}", r.base_address, r.size, rva)
+        }),
+    }
+}
+
+fn show_meminfo(dump: &Dump) -> String {
+    match dump.get_stream::<MinidumpMemoryInfoList>() {
+        Err(e) => err_name(&e),
+        Ok(l) => items(l.iter(), |r| {
+            format!("{}/{}/{}/{}/{}", r.raw.base_address, r.raw.region_size, r.raw.state, r.raw.protection, r.raw._type)
+        }),
+    }
+}
+
+fn show_thread_names(dump: &Dump, endian_big: bool) -> String {
+    match dump.get_stream::<MinidumpThreadNames>() {
+        Err(e) => err_name(&e),
+        Ok(names) => meter::unmetered(|| {
+            // the map is private: every key is a u32 found at a 4-aligned offset of the raw stream
+            let raw = dump.get_raw_stream(24).unwrap_or(&[]);
+            let mut ids: Vec<u32> = raw
+                .chunks_exact(4)
+                .map(|c| {
+                    let a = [c[0], c[1], c[2], c[3]];
+                    if endian_big {
+                        u32::from_be_bytes(a)
+                    } else {
+                        u32::from_le_bytes(a)
+                    }
+                })
+                .collect();
+            ids.sort_unstable();
+            ids.dedup();
+            items(ids.iter().filter_map(|id| names.get_name(*id).map(|n| (*id, n.to_string()))), |(id, n)| {
+                format!("{}={}", id, name_hex(&n))
+            })
+        }),
+    }
+}
+
+fn show_thread_info(dump: &Dump) -> String {
+    match dump.get_stream::<MinidumpThreadInfoList>() {
+        Err(e) => err_name(&e),
+        Ok(l) => items(l.thread_infos.iter(), |t| t.raw.thread_id.to_string()),
+    }
+}
+
+fn show_handles(dump: &Dump) -> String {
+    match dump.get_stream::<MinidumpHandleDataStream>() {
+        Err(e) => err_name(&e),
+        Ok(l) => items(l.handles.iter(), |h| {
+            let infos: Vec<String> =
+                h.object_infos.iter().map(|oi| format!("{}:{}", oi.info_type as u32, oi.raw.next_info_rva)).collect();
+            format!(
+                "{}/{}/{}/{}",
+                h.raw.handle().copied().unwrap_or(0),
+                opt_name(&h.type_name),
+                opt_name(&h.object_name),
+                infos.join(",")
+            )
+        }),
+    }
+}
+
+fn show_exception(dump: &Dump) -> String {
+    match dump.get_stream::<MinidumpException>() {
+        Err(e) => err_name(&e),
+        Ok(x) => {
+            let mut sink = meter::unmetered(|| Vec::with_capacity(8192));
+            let _ = x.print(&mut sink, None, None);
+            let ca = x.get_crash_address(Os::Windows, Cpu::X86_64);
+            meter::unmetered(|| show_exception_text(&x, &sink, ca))
+        }
+    }
+}
+
+fn show_exception_text(x: &MinidumpException, sink: &[u8], ca: u64) -> String {
+    {
+        {
+            let dbg = format!("{:?}", x);
+            let ctx = match dbg.rfind(", context: ") {
+                Some(p) => debug_context_len(&dbg[p..], ", context: "),
+                None => "?".into(),
+            };
+            let text = String::from_utf8_lossy(sink);
+            let mut params = Vec::new();
+            for line in text.lines() {
+                if let Some(rest) = line.strip_prefix("  exception_record.exception_information[") {
+                    if let Some((i, v)) = rest.split_once("] = ") {
+                        let v = u64::from_str_radix(v.trim().trim_start_matches("0x"), 16).unwrap_or(u64::MAX);
+                        params.push(format!("{}:{}", i.trim(), v));
+                    }
+                }
+            }
+            let r = &x.raw.exception_record;
+            format!(
+                "ok {}/{}/{}/{}/{}/{}/p={}/ca={}",
+                x.thread_id,
+                r.exception_code,
+                r.exception_flags,
+                r.exception_address,
+                r.number_parameters,
+                ctx,
+                params.join(","),
+                ca
+            )
+        }
+    }
+}
+
+fn show_crashpad(dump: &Dump) -> String {
+    match dump.get_stream::<MinidumpCrashpadInfo>() {
+        Err(e) => err_name(&e),
+        Ok(c) => meter::unmetered(|| {
+            let dict = |d: &std::collections::BTreeMap<String, String>| {
+                let items: Vec<String> = d.iter().map(|(k, v)| format!("{}:{}", hex(k.as_bytes()), hex(v.as_bytes()))).collect();
+                format!("[{}]", items.join(","))
+            };
+            let mut s = format!("ok {}/D{}/M[", c.raw.version, dict(&c.simple_annotations));
+            for m in &c.module_list {
+                let l: Vec<String> = m.list_annotations.iter().map(|x| hex(x.as_bytes())).collect();
+                let a: Vec<String> = m
+                    .annotation_objects
+                    .iter()
+                    .map(|(k, v)| {
+                        let v = match v {
+                            MinidumpAnnotation::Invalid => "i".to_string(),
+                            MinidumpAnnotation::String(x) => format!("s{}", hex(x.as_bytes())),
+                            MinidumpAnnotation::UserDefined(r) => format!("u{}:{}", r.ty, r.value),
+                            MinidumpAnnotation::Unsupported(r) => format!("x{}:{}", r.ty, r.value),
+                            _ => "?".to_string(),
+                        };
+                        format!("{}:{}", hex(k.as_bytes()), v)
+                    })
+                    .collect();
+                let _ = write!(s, "{}/{}/L[{}]/D{}/A[{}];", m.module_index, m.raw.version, l.join(","), dict(&m.simple_annotations), a.join(","));
+            }
+            s.push(']');
+            s
+        }),
+    }
+}
+
+// ------------------------------------------------------------------------------ phase B (sweep)
+
+fn sweep(dump: &Dump, o: &mut Out) {
+    let mut sink = Sink(0);
+    let sys = o.guard("get_stream::<MinidumpSystemInfo>", || dump.get_stream::<MinidumpSystemInfo>().ok()).flatten();
+    let misc = o.guard("get_stream::<MinidumpMiscInfo>", || dump.get_stream::<MinidumpMiscInfo>().ok()).flatten();
+    let mem = o.guard("get_memory", || dump.get_memory()).flatten();
+    let (os, cpu) = sys.as_ref().map(|s| (s.os, s.cpu)).unwrap_or((Os::Unknown(0), Cpu::Unknown(0)));
+
+    o.guard("Minidump::print", || {
+        let _ = dump.print(&mut sink);
+        let _ = dump.unknown_streams().count();
+        let _ = dump.unimplemented_streams().count();
+        for d in dump.all_streams() {
+            let _ = dump.get_raw_stream(d.stream_type);
+        }
+    });
+    if sys.is_some() {
+        let os_name = match os {
+            Os::Unknown(_) => "Unknown".to_string(),
+            other => format!("{:?}", other),
+        };
+        o.tags.push(format!("sweep:MinidumpSystemInfo=ok os={os_name}"));
+    }
+    if misc.is_some() {
+        o.tags.push("sweep:MinidumpMiscInfo=ok".into());
+    }
+    if let Some(s) = &sys {
+        o.guard("MinidumpSystemInfo accessors/print", || {
+            let _ = s.print(&mut sink);
+            let _ = s.csd_version();
+            let _ = s.cpu_info();
+            let _ = s.os_parts();
+        });
+    }
+    if let Some(m) = &misc {
+        o.guard("MinidumpMiscInfo accessors/print", || {
+            let _ = m.print(&mut sink);
+            let _ = m.process_create_time();
+        });
+    }
+    let mut nctx = 0u32;
+    o.guard("MinidumpThreadList accessors/print", || {
+        if let Ok(l) = dump.get_stream::<MinidumpThreadList>() {
+            let _ = l.print(&mut sink, mem.as_ref(), sys.as_ref(), misc.as_ref(), false);
+            let _ = l.print(&mut sink, None, None, None, true);
+            let dummy = UnifiedMemoryList::default();
+            for t in &l.threads {
+                let _ = l.get_thread(t.raw.thread_id);
+                if let Some(s) = &sys {
+                    if let Some(ctx) = t.context(s, misc.as_ref()) {
+                        nctx += 1;
+                        let _ = ctx.print(&mut sink);
+                        let _ = ctx.get_instruction_pointer();
+                        let _ = ctx.get_stack_pointer();
+                        for (_name, _v) in ctx.valid_registers() {}
+                    }
+                }
+                let m = mem.as_ref().unwrap_or(&dummy);
+                if let Some(st) = t.stack_memory(m) {
+                    let _ = st.memory_range();
+                    let _ = st.get_memory_at_address::<u64>(st.base_address());
+                    let _ = st.get_memory_at_address::<u32>(st.base_address().wrapping_add(st.size()).wrapping_sub(4));
+                }
+                for c in [cpu, Cpu::X86, Cpu::X86_64] {
+                    let _ = t.last_error(c, m).map(|r| r.to_string());
+                }
+            }
+        }
+    });
+    if nctx > 0 {
+        o.tags.push(format!("thread-context-printed={:?}", cpu));
+    }
+    o.guard("MinidumpModuleList accessors/print", || {
+        if let Ok(l) = dump.get_stream::<MinidumpModuleList>() {
+            let _ = l.print(&mut sink);
+            let _ = l.main_module();
+            let _ = l.by_addr().count();
+            for m in l.iter() {
+                let _ = (m.base_address(), m.size(), m.code_file().len());
+                let _ = m.code_identifier();
+                let _ = m.debug_file();
+                let _ = m.debug_identifier();
+                let _ = m.version();
+                for a in [m.base_address(), m.base_address().wrapping_add(m.size()).wrapping_sub(1), m.base_address().wrapping_add(m.size())] {
+                    let _ = l.module_at_address(a);
+                }
+            }
+            for a in [0, 1, u64::MAX, u64::MAX - 1, 1 << 31, 1 << 32] {
+                let _ = l.module_at_address(a);
+            }
+        }
+    });
+    o.guard("MinidumpUnloadedModuleList accessors/print", || {
+        if let Ok(l) = dump.get_stream::<MinidumpUnloadedModuleList>() {
+            let _ = l.print(&mut sink);
+            let _ = l.by_addr().count();
+            for m in l.iter() {
+                let _ = (m.base_address(), m.size(), m.code_file().len());
+                let _ = m.code_identifier();
+                let _ = m.debug_file();
+                let _ = m.debug_identifier();
+                let _ = m.version();
+                let _ = l.modules_at_address(m.base_address()).count();
+                let _ = l.modules_at_address(m.base_address().wrapping_add(m.size())).count();
+            }
+            let _ = l.modules_at_address(u64::MAX).count();
+        }
+    });
+    o.guard("MinidumpHandleDataStream print", || {
+        if let Ok(l) = dump.get_stream::<MinidumpHandleDataStream>() {
+            let _ = l.print(&mut sink);
+            for h in l.iter() {
+                for oi in &h.object_infos {
+                    let _ = write!(sink, "{oi}");
+                }
+            }
+        }
+    });
+    o.guard("memory lists accessors/print", || {
+        if let Some(m) = &mem {
+            let _ = m.print(&mut sink, false);
+            let _ = m.by_addr().count();
+            for r in m.iter() {
+                let _ = r.memory_range();
+                let _ = m.memory_at_address(r.base_address());
+                let _ = m.memory_at_address(r.base_address().wrapping_add(r.size()).wrapping_sub(1));
+                let _ = r.get_memory_at_address::<u64>(r.base_address());
+                let _ = r.get_memory_at_address::<u8>(r.base_address().wrapping_add(r.size()));
+                let _ = r.bytes().len();
+            }
+            let _ = m.memory_at_address(u64::MAX);
+        }
+        if let Ok(l) = dump.get_stream::<MinidumpMemoryList>() {
+            let _ = l.print(&mut sink, false);
+            let _ = l.by_addr().count();
+        }
+        if let Ok(l) = dump.get_stream::<MinidumpMemory64List>() {
+            let _ = l.print(&mut sink, true);
+            let _ = l.by_addr().count();
+        }
+    });
+    let mut has_maps = false;
+    o.guard("memory info / linux maps accessors/print", || {
+        let info = dump.get_stream::<MinidumpMemoryInfoList>().ok();
+        let maps = dump.get_stream::<MinidumpLinuxMaps>().ok();
+        has_maps = maps.is_some();
+        if let Some(l) = &info {
+            let _ = l.print(&mut sink);
+            let _ = l.by_addr().count();
+            for r in l.iter() {
+                let _ = r.memory_range();
+                let _ = (r.is_readable(), r.is_writable(), r.is_executable());
+                let _ = l.memory_info_at_address(r.raw.base_address);
+            }
+            let _ = l.memory_info_at_address(u64::MAX);
+        }
+        if let Some(l) = &maps {
+            let _ = l.print(&mut sink);
+            let _ = l.by_addr().count();
+            let _ = l.memory_map_count();
+            for r in l.iter() {
+                let _ = r.memory_range();
+                let _ = (r.is_readable(), r.is_writable(), r.is_executable());
+            }
+            let _ = l.memory_info_at_address(0);
+        }
+        if let Some(u) = UnifiedMemoryInfoList::new(info, maps) {
+            let _ = u.print(&mut sink);
+            let _ = u.iter().count();
+            let _ = u.by_addr().count();
+            let _ = u.memory_info_at_address(0x1000);
+        }
+    });
+    if has_maps {
+        o.tags.push("sweep:MinidumpLinuxMaps=ok".into());
+    }
+    o.guard("MinidumpException accessors/print", || {
+        if let Ok(x) = dump.get_stream::<MinidumpException>() {
+            let _ = x.print(&mut sink, sys.as_ref(), misc.as_ref());
+            let _ = x.get_crashing_thread_id();
+            if let Some(s) = &sys {
+                if let Some(ctx) = x.context(s, misc.as_ref()) {
+                    let _ = ctx.print(&mut sink);
+                }
+            }
+            let oses = [os, Os::Windows, Os::MacOs, Os::Ios, Os::Linux, Os::Android, Os::Unknown(0)];
+            let cpus = [cpu, Cpu::X86, Cpu::X86_64, Cpu::Arm, Cpu::Arm64, Cpu::Ppc, Cpu::Unknown(0)];
+            for o_ in oses {
+                for c in cpus {
+                    let _ = x.get_crash_address(o_, c);
+                    let r = x.get_crash_reason(o_, c);
+                    let _ = write!(sink, "{r}");
+                }
+            }
+        }
+    });
+    macro_rules! simple_print {
+        ($t:ty, $name:literal) => {
+            let _ = $name;
+            let cls = o
+                .guard(concat!("get_stream::<", stringify!($t), "> + print"), || match dump.get_stream::<$t>() {
+                    Ok(s) => {
+                        let _ = s.print(&mut sink);
+                        Some("ok")
+                    }
+                    Err(Error::StreamNotFound) => None,
+                    Err(_) => Some("err"),
+                })
+                .flatten();
+            if let Some(c) = cls {
+                o.tags.push(format!("sweep:{}={}", stringify!($t), c));
+            }
+        };
+    }
+    simple_print!(MinidumpAssertion, "MinidumpAssertion print");
+    simple_print!(MinidumpBreakpadInfo, "MinidumpBreakpadInfo print");
+    simple_print!(MinidumpCrashpadInfo, "MinidumpCrashpadInfo print");
+    simple_print!(MinidumpMacCrashInfo, "MinidumpMacCrashInfo print");
+    simple_print!(MinidumpMacBootargs, "MinidumpMacBootargs print");
+    simple_print!(MinidumpThreadNames, "MinidumpThreadNames print");
+    simple_print!(MinidumpThreadInfoList, "MinidumpThreadInfoList print");
+    o.guard("MinidumpAssertion accessors", || {
+        if let Ok(a) = dump.get_stream::<MinidumpAssertion>() {
+            let _ = (a.expression(), a.function(), a.file());
+        }
+    });
+    o.guard("MinidumpThreadInfoList accessors", || {
+        if let Ok(l) = dump.get_stream::<MinidumpThreadInfoList>() {
+            for t in &l.thread_infos {
+                let _ = l.get_thread_info(t.raw.thread_id);
+                let _ = t.print(&mut sink);
+            }
+        }
+    });
+    macro_rules! text_stream {
+        ($t:ty, $name:literal) => {
+            let _ = $name;
+            let cls = o
+                .guard(concat!("get_stream::<", stringify!($t), "> + iter"), || match dump.get_stream::<$t>() {
+                    Ok(s) => {
+                        let _ = s.iter().count();
+                        let _ = s.raw_bytes().len();
+                        Some("ok")
+                    }
+                    Err(Error::StreamNotFound) => None,
+                    Err(_) => Some("err"),
+                })
+                .flatten();
+            if let Some(c) = cls {
+                o.tags.push(format!("sweep:{}={}", stringify!($t), c));
+            }
+        };
+    }
+    text_stream!(MinidumpLinuxLsbRelease, "MinidumpLinuxLsbRelease iter");
+    text_stream!(MinidumpLinuxEnviron, "MinidumpLinuxEnviron iter");
+    text_stream!(MinidumpLinuxCpuInfo, "MinidumpLinuxCpuInfo iter");
+    text_stream!(MinidumpLinuxProcStatus, "MinidumpLinuxProcStatus iter");
+    text_stream!(MinidumpLinuxProcLimits, "MinidumpLinuxProcLimits iter");
+    o.guard("MinidumpSoftErrors", || {
+        if let Ok(s) = dump.get_stream::<MinidumpSoftErrors>() {
+            let _ = s.as_ref().len();
+        }
+    });
+    o.tags.push(format!("printed-bytes-log2={}", 64 - sink.0.leading_zeros()));
+}
+
+// ------------------------------------------------------------------------------------ one case
+
+struct CaseOut {
+    line: String,
+    oracle: Vec<(String, String)>,
+    tags: Vec<String>,
+    nontrivial: bool,
+    a: meter::Stats,
+    b: meter::Stats,
+}
+
+fn run_case(all: &[u8], shared: &Arc<meter::Shared>) -> CaseOut {
+    let mut o = Out { oracle: vec![], tags: vec![], n: all.len() as u64, shared: shared.clone(), per_op: false, b: Default::default() };
+    meter::start(shared);
+    let mut nontrivial = false;
+    let line;
+    let mut dump_opt = None;
+    match o.guard("Minidump::read", || Minidump::read(all)) {
+        None => line = "hdr:PANIC".to_string(),
+        Some(Err(e)) => {
+            o.tags.push(format!("hdr=err-{}", e.name()));
+            line = format!("hdr:err {}", e.name());
+        }
+        Some(Ok(dump)) => {
+            let be = dump.endian == scroll::Endian::Big;
+            o.tags.push(format!("hdr=ok-{}", if be { "be" } else { "le" }));
+            let mut parts = vec![format!(
+                "hdr:ok {} ver={} n={} dir={}",
+                if be { "be" } else { "le" },
+                dump.header.version,
+                dump.header.stream_count,
+                dump.header.stream_directory_rva
+            )];
+            parts.push(o.guard("Minidump::print", || show_dir(&dump)).unwrap_or_else(|| "dir:PANIC".into()));
+            let mut present = 0;
+            let mut add = |o: &mut Out, tag: &str, what: &str, f: &dyn Fn() -> String| {
+                let s = o.guard(what, f).unwrap_or_else(|| "PANIC".into());
+                // the harness's own bookkeeping is not charged to the code under test
+                meter::unmetered(|| {
+                    let class = if s.starts_with("ok") { "ok" } else { s.as_str() };
+                    if class != "err StreamNotFound" {
+                        present += 1;
+                        o.tags.push(format!("{tag}={}", class.replace(' ', "-")));
+                    }
+                    parts.push(format!("{tag}:{s}"));
+                });
+            };
+            add(&mut o, "thr", "get_stream::<MinidumpThreadList>", &|| show_threads(&dump));
+            add(&mut o, "mod", "get_stream::<MinidumpModuleList>", &|| show_modules(&dump));
+            add(&mut o, "unl", "get_stream::<MinidumpUnloadedModuleList>", &|| show_unloaded(&dump));
+            add(&mut o, "mem", "get_stream::<MinidumpMemoryList>", &|| show_memory(&dump));
+            add(&mut o, "mem64", "get_stream::<MinidumpMemory64List>", &|| show_memory64(&dump, all));
+            add(&mut o, "minfo", "get_stream::<MinidumpMemoryInfoList>", &|| show_meminfo(&dump));
+            add(&mut o, "tnames", "get_stream::<MinidumpThreadNames>", &|| show_thread_names(&dump, be));
+            add(&mut o, "tinfo", "get_stream::<MinidumpThreadInfoList>", &|| show_thread_info(&dump));
+            add(&mut o, "hnd", "get_stream::<MinidumpHandleDataStream>", &|| show_handles(&dump));
+            add(&mut o, "exc", "get_stream::<MinidumpException> + print + get_crash_address", &|| show_exception(&dump));
+            add(&mut o, "cp", "get_stream::<MinidumpCrashpadInfo>", &|| show_crashpad(&dump));
+            let gm = o
+                .guard("get_memory", || match dump.get_memory() {
+                    Some(UnifiedMemoryList::Memory64(_)) => "mem64",
+                    Some(UnifiedMemoryList::Memory(_)) => "mem",
+                    None => "none",
+                })
+                .unwrap_or("PANIC");
+            nontrivial = present > 0;
+            line = meter::unmetered(|| {
+                parts.push(format!("getmem:{gm}"));
+                parts.join(" | ")
+            });
+            dump_opt = Some(dump);
+        }
+    }
+    let a = meter::lap();
+    o.check_alloc("Minidump::read + get_stream of the modelled streams", &a);
+    o.per_op = true;
+    if let Some(dump) = &dump_opt {
+        sweep(dump, &mut o);
+    }
+    let _ = meter::stop();
+    let b = o.b.clone();
+    CaseOut { line, oracle: o.oracle, tags: o.tags, nontrivial, a, b }
+}
+
+fn parse_case(case: &str) -> Option<(Vec<u8>, String)> {
+    let mut it = case.split(' ').filter(|s| !s.is_empty());
+    if it.next()? != "read" {
+        return None;
+    }
+    let bytes = unhex(it.next()?)?;
+    let mut cat = String::from("corpus");
+    for f in it {
+        if let Some(c) = f.strip_prefix("cat=") {
+            cat = c.to_string();
+        }
+    }
+    Some((bytes, cat))
+}
+
+fn mem_sizes() -> String {
+    use std::mem::size_of as s;
+    [
+        s::<md::MINIDUMP_THREAD>(),
+        s::<MinidumpThread>(),
+        s::<md::MINIDUMP_MODULE>(),
+        s::<MinidumpModule>(),
+        s::<md::MINIDUMP_UNLOADED_MODULE>(),
+        s::<MinidumpUnloadedModule>(),
+        s::<md::MINIDUMP_MEMORY_DESCRIPTOR>(),
+        s::<MinidumpMemory>(),
+        s::<md::MINIDUMP_MEMORY_DESCRIPTOR64>(),
+        s::<MinidumpMemory64>(),
+        s::<md::MINIDUMP_MEMORY_INFO>(),
+        s::<MinidumpMemoryInfo>(),
+        s::<md::MINIDUMP_THREAD_NAME>(),
+        s::<MinidumpHandleDescriptor>(),
+        s::<MinidumpHandleObjectInformation>(),
+        s::<md::MINIDUMP_THREAD_INFO>(),
+        s::<MinidumpThreadInfo>(),
+        s::<String>(),
+        s::<MinidumpModuleCrashpadInfo>(),
+    ]
+    .iter()
+    .map(|n| n.to_string())
+    .collect::<Vec<_>>()
+    .join(",")
+}
+
+fn size_bucket(n: usize) -> &'static str {
+    match n {
+        0..=31 => "len<32",
+        32..=255 => "len<256",
+        256..=4095 => "len<4K",
+        4096..=65535 => "len<64K",
+        _ => "len>=64K",
+    }
+}
+
+// ----------------------------------------------------------------------------------- generators
+
+fn tend(be: bool) -> TEndian {
+    if be {
+        TEndian::Big
+    } else {
+        TEndian::Little
+    }
+}
+
+fn rand_name(rng: &mut Rng) -> String {
+    let pool = ["a", "libxul.so", "C:\\Windows\\ntdll.dll", "κόσμε", "日本語", "😀 emoji", "", "x y", "/usr/lib/libc.so.6"];
+    let mut s = pool[rng.below(pool.len() as u64) as usize].to_string();
+    if rng.chance(1, 4) {
+        for _ in 0..rng.below(40) {
+            s.push((b'a' + rng.below(26) as u8) as char);
+        }
+    }
+    s
+}
+
+/// The CPU context records `MinidumpContext::read` knows: (processor_architecture, wire size,
+/// CPU bit of context_flags, offset of context_flags, context_flags is 64 bits wide).
+fn arch_table() -> Vec<(u16, usize, u32, usize, bool)> {
+    use scroll::ctx::SizeWith;
+    let le = scroll::LE;
+    vec![
+        (0, md::CONTEXT_X86::size_with(&le), 0x10000, 0, false),
+        (10, md::CONTEXT_X86::size_with(&le), 0x10000, 0, false),
+        (9, md::CONTEXT_AMD64::size_with(&le), 0x100000, 48, false),
+        (3, md::CONTEXT_PPC::size_with(&le), 0x2000_0000, 0, false),
+        (0x8002, md::CONTEXT_PPC64::size_with(&le), 0x100_0000, 0, true),
+        (0x8001, md::CONTEXT_SPARC::size_with(&le), 0x1000_0000, 0, false),
+        (5, md::CONTEXT_ARM::size_with(&le), 0x4000_0000, 0, false),
+        (12, md::CONTEXT_ARM64::size_with(&le), 0x40_0000, 0, false),
+        (0x8003, md::CONTEXT_ARM64_OLD::size_with(&le), 0x8000_0000, 0, true),
+        (1, md::CONTEXT_MIPS::size_with(&le), 0x4_0000, 0, false),
+    ]
+}
+
+/// A context record that `MinidumpContext::read` accepts for the given architecture: right size,
+/// right CPU bit in `context_flags`, arbitrary register contents.
+fn context_blob(arch: (u16, usize, u32, usize, bool), be: bool, rng: &mut Rng) -> Vec<u8> {
+    let (_, size, bit, at, wide) = arch;
+    let fill = rng.below(3);
+    let mut b: Vec<u8> = (0..size)
+        .map(|_| match fill {
+            0 => 0,
+            1 => 0xff,
+            _ => rng.next() as u8,
+        })
+        .collect();
+    let flags = bit | (rng.below(0x40) as u32);
+    if wide {
+        let v = flags as u64;
+        b[at..at + 8].copy_from_slice(&if be { v.to_be_bytes() } else { v.to_le_bytes() });
+    } else {
+        b[at..at + 4].copy_from_slice(&if be { flags.to_be_bytes() } else { flags.to_le_bytes() });
+    }
+    b
+}
+
+/// A valid dump built with minidump-synth: a random subset of every stream kind it supports.
+fn synth_dump(rng: &mut Rng, be: bool) -> Vec<u8> {
+    let e = tend(be);
+    let mut d = synth::SynthMinidump::with_endian(e);
+    let mut extra: Vec<Section> = Vec::new();
+    // system info first (it steers how the others are interpreted)
+    let table = arch_table();
+    let arch = *rng.pick(&table);
+    if rng.chance(7, 8) {
+        let plats = [2u32, 3, 0x8101, 0x8201, 0x8203, 0x8102, 0x8204, 1, 0xdead];
+        let pa = if rng.chance(1, 10) { *rng.pick(&[6u16, 0x8004, 0xffff]) } else { arch.0 };
+        d = d.add_system_info(synth::SystemInfo::new(e).set_processor_architecture(pa).set_platform_id(*rng.pick(&plats)));
+    }
+    // memory + threads
+    let nthreads = rng.below(4);
+    for t in 0..nthreads {
+        let stack_len = rng.below(200) as usize;
+        let stack = synth::Memory::with_section(
+            Section::with_endian(e).append_repeated(rng.below(256) as u8, stack_len),
+            0x1000_0000 + 0x10000 * t,
+        );
+        let ctx = match rng.below(8) {
+            0 => synth::x86_context(e, 0xabcd1234, 0x1010),
+            1 => synth::amd64_context(e, 0x1234abcd1234abcd, 0x1000000010000000),
+            2 => synth::arm64_context(e, 0x1234abcd1234abcd, 0x1000000010000000),
+            3 => Section::with_endian(e).append_repeated(0x5a, rng.below(64) as usize),
+            _ => Section::with_endian(e).append_bytes(&context_blob(arch, be, rng)),
+        };
+        let thread = synth::Thread::new(e, 0x100 + t as u32 * (1 + rng.below(2) as u32), &stack, &ctx);
+        d = d.add_thread(thread).add(ctx);
+        if rng.chance(1, 2) {
+            d = d.add_memory(stack);
+        } else {
+            d = d.add(stack);
+        }
+        if rng.chance(1, 2) {
+            let name = synth::DumpString::new(&rand_name(rng), e);
+            let tn = synth::ThreadName::new(e, 0x100 + t as u32, if rng.chance(4, 5) { Some(&name) } else { None });
+            d = d.add_thread_name(tn).add(name);
+        }
+    }
+    for i in 0..rng.below(3) {
+        let m = synth::Memory::with_section(
+            Section::with_endian(e).append_repeated(i as u8, rng.below(64) as usize),
+            if rng.chance(1, 8) { u64::MAX - rng.below(64) } else { 0x2000_0000 + 0x1000 * i },
+        );
+        if rng.chance(1, 2) {
+            d = d.add_memory(m);
+        } else {
+            d = d.add_memory64(m);
+        }
+    }
+    // modules
+    for i in 0..rng.below(4) {
+        let name = synth::DumpString::new(&rand_name(rng), e);
+        let base = if rng.chance(1, 8) { u64::MAX - rng.below(0x2000) } else { 0x4000_0000 + 0x10_0000 * i };
+        let size = if rng.chance(1, 8) { 0 } else { 0x1000 + rng.below(0x8000) as u32 };
+        let mut module = synth::Module::new(e, base, size, &name, 0xb1054d2a, 0x34571371, None);
+        let cv = match rng.below(5) {
+            0 => Some(
+                Section::with_endian(e)
+                    .D32(md::CvSignature::Pdb70 as u32)
+                    .D32(0xabcd1234)
+                    .D16(0xf00d)
+                    .D16(0xbeef)
+                    .append_bytes(b"\x01\x02\x03\x04\x05\x06\x07\x08")
+                    .D32(1)
+                    .append_bytes(b"c:\\foo\\file.pdb\0"),
+            ),
+            1 => Some(
+                Section::with_endian(e).D32(md::CvSignature::Pdb20 as u32).D32(0).D32(0xabcd1234).D32(1).append_bytes(b"file.pdb\0"),
+            ),
+            2 => Some(Section::with_endian(e).D32(md::CvSignature::Elf as u32).append_repeated(0x42, rng.below(40) as usize)),
+            3 => Some(Section::with_endian(e).D32(0x12345678).append_repeated(1, rng.below(600) as usize)),
+            _ => None,
+        };
+        if let Some(cv) = &cv {
+            module = module.cv_record(cv);
+        }
+        d = d.add_module(module).add(name);
+        if let Some(cv) = cv {
+            d = d.add(cv);
+        }
+    }
+    for i in 0..rng.below(3) {
+        let name = synth::DumpString::new(&rand_name(rng), e);
+        let um = synth::UnloadedModule::new(e, 0x5000_0000 + 0x1000 * i, 0x1000 + rng.below(2) as u32 * 0x1000, &name, 0x1, 0x2);
+        d = d.add_unloaded_module(um).add(name);
+    }
+    for i in 0..rng.below(4) {
+        d = d.add_memory_info(synth::MemoryInfo::new(
+            e,
+            if rng.chance(1, 8) { u64::MAX - 0x10 } else { 0x7000_0000 + 0x1000 * i },
+            0x7000_0000,
+            md::MemoryProtection::PAGE_EXECUTE_READ.bits(),
+            if rng.chance(1, 8) { 0 } else { 0x1000 },
+            md::MemoryState::MEM_COMMIT.bits(),
+            md::MemoryProtection::PAGE_READWRITE.bits(),
+            md::MemoryType::MEM_PRIVATE.bits(),
+        ));
+    }
+    for i in 0..rng.below(3) {
+        let tn = synth::DumpString::new("File", e);
+        let on = synth::DumpString::new(&rand_name(rng), e);
+        let h = synth::HandleDescriptor::new(e, 0x1234 + i, Some(&tn), if rng.chance(1, 2) { Some(&on) } else { None }, 0x12, 0x34, 1, 2);
+        d = d.add_handle_descriptor(h).add(tn).add(on);
+    }
+    if rng.chance(1, 2) {
+        let mut x = synth::Exception::new(e);
+        x.thread_id = 0x100;
+        x.exception_record.exception_code = *rng.pick(&[0xC0000005u32, 0xC0000006, 11, 6, 0x80000003, 1, 0xdeadbeef]);
+        x.exception_record.exception_flags = rng.below(4) as u32;
+        x.exception_record.exception_address = rng.next();
+        x.exception_record.number_parameters = *rng.pick(&[0u32, 1, 2, 3, 14, 15, 16, 17, 255, u32::MAX]);
+        for k in 0..15 {
+            x.exception_record.exception_information[k] = rng.next() >> rng.below(64);
+        }
+        let ctx = synth::x86_context(e, 0x1111, 0x2222);
+        extra.push(ctx);
+        d = d.add_exception(x);
+    }
+    if rng.chance(1, 3) {
+        let mut misc = synth::MiscStream::new(e);
+        misc.process_id = Some(1234);
+        if rng.chance(1, 2) {
+            misc.process_times = Some(synth::MiscFieldsProcessTimes { process_create_time: 0xf0f0b0b0, process_user_time: 1, process_kernel_time: 2 });
+        }
+        d = d.add_stream(misc);
+    }
+    if rng.chance(1, 3) {
+        let module = synth::ModuleCrashpadInfo::new(rng.below(3) as u32, e)
+            .add_list_annotation("annotation")
+            .add_simple_annotation("simple", "module")
+            .add_annotation_object("string", synth::AnnotationValue::String("value".to_owned()))
+            .add_annotation_object("invalid", synth::AnnotationValue::Invalid)
+            .add_annotation_object("custom", synth::AnnotationValue::Custom(0x8001, vec![42]));
+        let ci = synth::CrashpadInfo::new(e).add_module(module).add_simple_annotation("simple", "info");
+        d = d.add_crashpad_info(ci);
+    }
+    if rng.chance(1, 3) {
+        let maps: &[u8] = if rng.chance(2, 3) {
+            b"00400000-00452000 r-xp 00000000 08:01 1234                       /bin/foo\n7f0000000000-7f0000021000 rw-p 00000000 00:00 0                          [stack]\nffffffffff600000-ffffffffff601000 --xp 00000000 00:00 0                  [vsyscall]\n"
+        } else {
+            b"00400000-00452000 r-xp 00000000 08:01 1234 /bin/foo\n7f00-7fff rw-p 0 00:00 0 [stack]\nbad line\n"
+        };
+        d = d
+            .set_linux_maps(maps)
+            .set_linux_lsb_release(b"DISTRIB_ID=Ubuntu\nDISTRIB_RELEASE=\"20.04\"\n")
+            .set_linux_proc_status(b"Name:\tfoo\nPid:\t42\n")
+            .set_linux_proc_limits(b"Limit Soft Hard Units\nMax cpu time unlimited unlimited seconds\nx\n")
+            .set_linux_cpu_info(b"processor : 0\nmodel name : x\n\nmicrocode : 0x1\n")
+            .set_linux_environ(b"A=b\0C=d\0junk\0")
+            .set_soft_errors("[{\"a\":1}]");
+    }
+    for s in extra {
+        d = d.add(s);
+    }
+    d.finish().unwrap_or_default()
+}
+
+/// Little hand-rolled dump writer: full control over the layout (handle descriptors of the
+/// 40-byte form with object-info chains, Memory64, thread-info, duplicated directory entries,
+/// deliberately cyclic / self-referential RVAs) — things minidump-synth cannot express.
+struct W {
+    buf: Vec<u8>,
+    be: bool,
+}
+impl W {
+    fn u32(&mut self, v: u32) {
+        if self.be {
+            self.buf.extend_from_slice(&v.to_be_bytes())
+        } else {
+            self.buf.extend_from_slice(&v.to_le_bytes())
+        }
+    }
+    fn u64(&mut self, v: u64) {
+        if self.be {
+            self.buf.extend_from_slice(&v.to_be_bytes())
+        } else {
+            self.buf.extend_from_slice(&v.to_le_bytes())
+        }
+    }
+    fn put32(&mut self, at: usize, v: u32) {
+        let b = if self.be { v.to_be_bytes() } else { v.to_le_bytes() };
+        self.buf[at..at + 4].copy_from_slice(&b);
+    }
+    fn here(&self) -> u32 {
+        self.buf.len() as u32
+    }
+    fn utf16(&mut self, s: &str) -> u32 {
+        let at = self.here();
+        let units: Vec<u16> = s.encode_utf16().collect();
+        self.u32(units.len() as u32 * 2);
+        for u in units {
+            if self.be {
+                self.buf.extend_from_slice(&u.to_be_bytes())
+            } else {
+                self.buf.extend_from_slice(&u.to_le_bytes())
+            }
+        }
+        at
+    }
+}
+
+fn crafted_dump(rng: &mut Rng, be: bool) -> Vec<u8> {
+    let mut w = W { buf: Vec::new(), be };
+    // header, patched at the end
+    w.u32(md::MINIDUMP_SIGNATURE);
+    w.u32(md::MINIDUMP_VERSION | ((rng.below(4) as u32) << 16));
+    w.u32(0);
+    w.u32(0);
+    w.u32(0);
+    w.u32(0x4b3f_2a1d);
+    w.u64(0);
+    let mut dir: Vec<(u32, u32, u32)> = Vec::new(); // (type, size, rva)
+
+    // system info + one context record of the matching architecture
+    let table = arch_table();
+    let arch = *rng.pick(&table);
+    let ctx_blob = context_blob(arch, be, rng);
+    let ctx_at = w.here();
+    w.buf.extend_from_slice(&ctx_blob);
+    if rng.chance(5, 6) {
+        let at = w.here();
+        let put16 = |w: &mut W, v: u16| {
+            if w.be {
+                w.buf.extend_from_slice(&v.to_be_bytes())
+            } else {
+                w.buf.extend_from_slice(&v.to_le_bytes())
+            }
+        };
+        put16(&mut w, arch.0);
+        put16(&mut w, 6);
+        put16(&mut w, 0x0102);
+        w.buf.push(4);
+        w.buf.push(1);
+        w.u32(10);
+        w.u32(0);
+        w.u32(19041);
+        w.u32(*rng.pick(&[2u32, 3, 0x8101, 0x8102, 0x8201, 0x8203, 0x8204, 7]));
+        w.u32(*rng.pick(&[0u32, 0, ctx_at, u32::MAX]));
+        put16(&mut w, 0);
+        put16(&mut w, 0);
+        for _ in 0..24 {
+            w.buf.push(rng.next() as u8);
+        }
+        dir.push((7, w.here() - at, at));
+    }
+    // a thread list whose contexts are that record
+    if rng.chance(2, 3) {
+        let at = w.here();
+        let n = 1 + rng.below(2) as u32;
+        w.u32(n);
+        for i in 0..n {
+            w.u32(0x200 + i);
+            w.u32(0);
+            w.u32(0);
+            w.u32(0);
+            w.u64(*rng.pick(&[0u64, 0x7ffd_e000, u64::MAX, u64::MAX - 100]));
+            w.u64(0xa000_0000);
+            w.u32(*rng.pick(&[64u32, 0, u32::MAX]));
+            w.u32(*rng.pick(&[ctx_at, 0, 32]));
+            w.u32(ctx_blob.len() as u32);
+            w.u32(ctx_at);
+        }
+        dir.push((3, w.here() - at, at));
+    }
+
+    // strings
+    let s_type = w.utf16("Event");
+    let s_obj = w.utf16(&rand_name(rng));
+
+    // object-info records: n records, chained in a shape chosen below
+    let n_info = 1 + rng.below(6) as usize;
+    let info_at: Vec<u32> = (0..n_info).map(|i| w.here() + 12 * i as u32).collect();
+    let shape = rng.below(8);
+    for i in 0..n_info {
+        let next = match shape {
+            0 => info_at.get(i + 1).copied().unwrap_or(0),                // proper chain
+            1 => info_at[i],                                              // self loop
+            2 => info_at[(i + 1) % n_info],                               // cycle through all
+            3 => info_at.get(i + 1).copied().unwrap_or(info_at[0]),       // lasso
+            4 => info_at.get(i + 1).copied().unwrap_or(0xffff_fff0),      // runs off the file
+            5 => info_at.get(i + 1).copied().unwrap_or(4),                // into the header
+            6 => info_at.get(i + 1).copied().unwrap_or(info_at[i] + 4),   // overlapping records
+            _ => *rng.pick(&info_at),                                     // random graph
+        };
+        w.u32(next);
+        w.u32(if rng.chance(1, 10) { *rng.pick(&[10u32, 99, u32::MAX]) } else { rng.below(10) as u32 });
+        w.u32(12);
+    }
+
+    // handle data stream, descriptor size 40 (or 32 / something odd)
+    {
+        let at = w.here();
+        let desc_size: u32 = *rng.pick(&[40u32, 40, 40, 32, 0, 1, 36, 48]);
+        let n = rng.below(4) as u32;
+        let hdr = *rng.pick(&[16u32, 16, 16, 12, 20, 0]);
+        w.u32(hdr);
+        w.u32(desc_size);
+        w.u32(if rng.chance(1, 12) { *rng.pick(&[u32::MAX, 1 << 31, 1000]) } else { n });
+        w.u32(0);
+        for _ in 16..hdr {
+            w.buf.push(0);
+        }
+        for i in 0..n {
+            w.u64(0x40 + i as u64);
+            w.u32(if rng.chance(1, 5) { 0 } else { s_type });
+            w.u32(if rng.chance(1, 5) { *rng.pick(&[0u32, 1, u32::MAX]) } else { s_obj });
+            w.u32(1);
+            w.u32(2);
+            w.u32(3);
+            w.u32(4);
+            if desc_size >= 40 {
+                w.u32(if rng.chance(1, 6) { 0 } else { *rng.pick(&info_at) });
+                w.u32(0);
+            }
+            for _ in 40..desc_size.min(64) {
+                w.buf.push(0);
+            }
+        }
+        dir.push((12, w.here() - at, at));
+    }
+    // memory64 list
+    if rng.chance(2, 3) {
+        let n = rng.below(4);
+        let sizes: Vec<u64> = (0..n).map(|_| rng.below(40)).collect();
+        let data_at = w.here();
+        for (i, s) in sizes.iter().enumerate() {
+            for _ in 0..*s {
+                w.buf.push(i as u8);
+            }
+        }
+        let at = w.here();
+        w.u64(if rng.chance(1, 10) { *rng.pick(&[u64::MAX, 1 << 60, n + 1]) } else { n });
+        w.u64(if rng.chance(1, 10) { *rng.pick(&[u64::MAX, u64::MAX - 8, 0]) } else { data_at as u64 });
+        for (i, s) in sizes.iter().enumerate() {
+            w.u64(0x9000_0000 + 0x1000 * i as u64);
+            w.u64(if rng.chance(1, 12) { *rng.pick(&[u64::MAX, 1 << 63, 1 << 32]) } else { *s });
+        }
+        dir.push((9, w.here() - at, at));
+    }
+    // thread info list (ex list, entry size 64)
+    if rng.chance(1, 2) {
+        let at = w.here();
+        let n = rng.below(3) as u32;
+        let hdr = *rng.pick(&[12u32, 12, 16, 8, 0]);
+        w.u32(hdr);
+        w.u32(*rng.pick(&[64u32, 64, 64, 60, 0]));
+        w.u32(n);
+        for _ in 12..hdr {
+            w.buf.push(0);
+        }
+        for i in 0..n {
+            w.u32(0x200 + i);
+            for _ in 0..60 {
+                w.buf.push(i as u8);
+            }
+        }
+        dir.push((17, w.here() - at, at));
+    }
+    // exception
+    if rng.chance(2, 3) {
+        let at = w.here();
+        w.u32(0x200);
+        w.u32(0);
+        w.u32(*rng.pick(&[0xC0000005u32, 0xC0000006, 11, 0]));
+        w.u32(0);
+        w.u64(0);
+        w.u64(rng.next());
+        w.u32(*rng.pick(&[0u32, 1, 2, 15, 16, 17, 1 << 31, u32::MAX]));
+        w.u32(0);
+        for k in 0..15u64 {
+            w.u64(k * 0x1111_1111_1111);
+        }
+        if rng.chance(2, 3) {
+            w.u32(ctx_blob.len() as u32);
+            w.u32(ctx_at);
+        } else {
+            w.u32(*rng.pick(&[0u32, 16, u32::MAX]));
+            w.u32(*rng.pick(&[0u32, 32, at, u32::MAX]));
+        }
+        dir.push((6, w.here() - at, at));
+    }
+    // memory list whose descriptors point at themselves / the directory
+    if rng.chance(1, 2) {
+        let at = w.here();
+        let n = 1 + rng.below(3) as u32;
+        w.u32(n);
+        if rng.chance(1, 3) {
+            w.u32(0); // 4 bytes of padding
+        }
+        for i in 0..n {
+            w.u64(if rng.chance(1, 6) { u64::MAX - 3 } else { 0xa000_0000 + i as u64 * 0x100 });
+            w.u32(*rng.pick(&[16u32, 0, 4, u32::MAX]));
+            w.u32(*rng.pick(&[at, 0, 32, u32::MAX, at + 4]));
+        }
+        // trailing bytes: the list rule accepts exactly 0 or 4 bytes beyond count * size + 4
+        for _ in 0..*rng.pick(&[0u32, 0, 0, 4, 8, 8, 12, 1]) {
+            w.buf.push(0);
+        }
+        dir.push((5, w.here() - at, at));
+    }
+    // thread names with wild 64-bit RVAs
+    if rng.chance(1, 2) {
+        let at = w.here();
+        let n = 1 + rng.below(3) as u32;
+        w.u32(n);
+        for i in 0..n {
+            w.u32(0x300 + (i % 2));
+            w.u64(*rng.pick(&[s_obj as u64, s_type as u64, u64::MAX, 1 << 32, at as u64, 0]));
+        }
+        for _ in 0..*rng.pick(&[0u32, 0, 0, 4, 8, 8, 16]) {
+            w.buf.push(0);
+        }
+        dir.push((24, w.here() - at, at));
+    }
+    // the vendor streams minidump-synth cannot write: breakpad info, assertion, mac crash info, mac boot args
+    if rng.chance(1, 2) {
+        let at = w.here();
+        w.u32(rng.below(4) as u32);
+        w.u32(0x200);
+        w.u32(*rng.pick(&[0x200u32, 0x201, 0, u32::MAX]));
+        dir.push((0x4767_0001, w.here() - at, at));
+    }
+    if rng.chance(1, 3) {
+        let at = w.here();
+        for k in 0..3 * 128u32 {
+            // UTF-16 text, sometimes unterminated, sometimes with lone surrogates
+            let u: u16 = match rng.below(12) {
+                0 => 0,
+                1 => 0xd800,
+                2 => 0xdc00,
+                _ => 0x41 + (k % 26) as u16,
+            };
+            if w.be {
+                w.buf.extend_from_slice(&u.to_be_bytes())
+            } else {
+                w.buf.extend_from_slice(&u.to_le_bytes())
+            }
+        }
+        w.u32(42);
+        w.u32(rng.below(4) as u32);
+        dir.push((0x4767_0002, w.here() - at, at));
+    }
+    if rng.chance(1, 2) {
+        // records first, then the header pointing at them
+        let version = *rng.pick(&[1u64, 4, 5, 5, 6, 0, u64::MAX]);
+        let fixed: u32 = match version {
+            0..=3 => 16,
+            4 => 32,
+            _ => 40,
+        };
+        let start = *rng.pick(&[fixed, fixed, fixed + 8, 0, 8, u32::MAX]);
+        let n = rng.below(4) as u32;
+        let mut recs = Vec::new();
+        for _ in 0..n {
+            let at = w.here();
+            w.u64(0x4d7a_0001);
+            w.u64(if rng.chance(1, 8) { version.wrapping_add(1) } else { version });
+            for _ in 2..fixed / 8 {
+                w.u64(rng.next());
+            }
+            for _ in fixed..start.min(64) {
+                w.buf.push(0x2e);
+            }
+            for k in 0..5 {
+                if rng.chance(1, 10) {
+                    break; // missing strings / terminator
+                }
+                w.buf.extend_from_slice(format!("string number {k}").as_bytes());
+                if rng.chance(1, 10) {
+                    w.buf.push(0xff);
+                }
+                w.buf.push(0);
+            }
+            recs.push((w.here() - at, at));
+        }
+        let at = w.here();
+        w.u32(0x4d7a_0001);
+        w.u32(if rng.chance(1, 6) { *rng.pick(&[21u32, 255, u32::MAX]) } else { n });
+        w.u32(start);
+        for k in 0..20 {
+            let (sz, rva) = recs.get(k).copied().unwrap_or((0, 0));
+            w.u32(sz);
+            w.u32(if rng.chance(1, 12) { u32::MAX } else { rva });
+        }
+        dir.push((0x4d7a_0001, w.here() - at, at));
+    }
+    if rng.chance(1, 3) {
+        let at = w.here();
+        w.u32(0x4d7a_0002);
+        w.u64(*rng.pick(&[s_obj as u64, s_type as u64, 0, u64::MAX, 1 << 40]));
+        dir.push((0x4d7a_0002, w.here() - at, at));
+    }
+    // directory (sometimes with duplicates, sometimes pointing at itself)
+    if rng.chance(1, 3) && !dir.is_empty() {
+        let d0 = dir[rng.below(dir.len() as u64) as usize];
+        dir.push((d0.0, d0.1 / 2, d0.2));
+    }
+    let dir_at = w.here();
+    if rng.chance(1, 4) {
+        dir.push((*rng.pick(&[3u32, 4, 5, 12, 14, 16]), 12 * (dir.len() as u32 + 1), dir_at));
+    }
+    for (t, s, r) in &dir {
+        w.u32(*t);
+        w.u32(*s);
+        w.u32(*r);
+    }
+    w.put32(8, dir.len() as u32);
+    w.put32(12, dir_at);
+    w.buf
+}
+
+/// Long lists (thousands of entries): recursion depth / quadratic behaviour / allocation sizes at scale.
+fn large_dump(rng: &mut Rng, be: bool, target: usize) -> Vec<u8> {
+    let mut w = W { buf: Vec::new(), be };
+    w.u32(md::MINIDUMP_SIGNATURE);
+    w.u32(md::MINIDUMP_VERSION);
+    for _ in 0..6 {
+        w.u32(0);
+    }
+    let mut dir: Vec<(u32, u32, u32)> = Vec::new();
+    let name = w.utf16("a module with a fairly long name.dll");
+    // a chain of object infos shared by every handle
+    let n_info = 1 + rng.below(20) as u32;
+    let info0 = w.here();
+    for i in 0..n_info {
+        w.u32(if i + 1 < n_info { info0 + 12 * (i + 1) } else { *rng.pick(&[0u32, info0]) });
+        w.u32(rng.below(10) as u32);
+        w.u32(12);
+    }
+    let per = target / 4;
+    {
+        let n = (per / 40) as u32;
+        let at = w.here();
+        w.u32(16);
+        w.u32(40);
+        w.u32(n);
+        w.u32(0);
+        for i in 0..n {
+            w.u64(i as u64);
+            w.u32(if i % 7 == 0 { name } else { 0 });
+            w.u32(0);
+            w.u32(0);
+            w.u32(0);
+            w.u32(1);
+            w.u32(1);
+            w.u32(if i % 5 == 0 { info0 } else { 0 });
+            w.u32(0);
+        }
+        dir.push((12, w.here() - at, at));
+    }
+    {
+        let n = (per / 16) as u32;
+        let at = w.here();
+        w.u32(n);
+        for i in 0..n {
+            w.u64(0x1000 * i as u64);
+            w.u32(16 + (i % 64));
+            w.u32(32 + (i % 512));
+        }
+        dir.push((5, w.here() - at, at));
+    }
+    {
+        let n = (per / 108) as u32;
+        let at = w.here();
+        w.u32(n);
+        for i in 0..n {
+            w.u64(0x10_0000 * i as u64);
+            w.u32(if i % 9 == 0 { 0 } else { 0x1000 });
+            w.u32(0);
+            w.u32(0);
+            w.u32(name);
+            for _ in 0..(108 - 24) / 4 {
+                w.u32(0);
+            }
+        }
+        dir.push((4, w.here() - at, at));
+    }
+    {
+        let n = (per / 48) as u32;
+        let at = w.here();
+        w.u32(n);
+        for i in 0..n {
+            w.u32(i);
+            w.u32(0);
+            w.u32(0);
+            w.u32(0);
+            w.u64(0);
+            w.u64(0x7000_0000 + 0x1000 * i as u64);
+            w.u32(64);
+            w.u32(32);
+            w.u32(16);
+            w.u32(64);
+        }
+        dir.push((3, w.here() - at, at));
+    }
+    let dir_at = w.here();
+    for (t, s_, r) in &dir {
+        w.u32(*t);
+        w.u32(*s_);
+        w.u32(*r);
+    }
+    w.put32(8, dir.len() as u32);
+    w.put32(12, dir_at);
+    w.buf
+}
+
+/// The 4-byte-aligned positions worth overwriting in a (valid) dump: header count / directory RVA,
+/// every directory entry's size and RVA, and the leading fields of every stream.
+fn interesting_offsets(b: &[u8]) -> (bool, Vec<usize>) {
+    let rd = |at: usize, be: bool| -> Option<u32> {
+        let s = b.get(at..at + 4)?;
+        let a = [s[0], s[1], s[2], s[3]];
+        Some(if be { u32::from_be_bytes(a) } else { u32::from_le_bytes(a) })
+    };
+    let be = rd(0, true) == Some(md::MINIDUMP_SIGNATURE);
+    let mut v = vec![4, 8, 12];
+    let (Some(n), Some(dir)) = (rd(8, be), rd(12, be)) else { return (be, v) };
+    for i in 0..n.min(64) as usize {
+        let e = dir as usize + 12 * i;
+        v.extend([e, e + 4, e + 8]);
+        if let (Some(sz), Some(rva)) = (rd(e + 4, be), rd(e + 8, be)) {
+            let (sz, rva) = (sz as usize, rva as usize);
+            let mut k = 0;
+            while k < sz.min(48) {
+                v.push(rva + k);
+                k += 4;
+            }
+            // a few positions deeper in the stream (entry fields)
+            let mut k = 48;
+            while k + 4 <= sz && k < 48 + 12 * 16 {
+                v.push(rva + k);
+                k += 12;
+            }
+        }
+    }
+    v.retain(|&o| o + 4 <= b.len());
+    v.sort_unstable();
+    v.dedup();
+    (be, v)
+}
+
+fn case_line(bytes: &[u8], cat: &str) -> String {
+    format!("read {} cat={}", hex(bytes), cat)
+}
 
 impl Engine for Read {
     fn name(&self) -> &'static str {
         "read"
     }
     fn rule(&self) -> String {
-        "not implemented".into()
+        "inputs: arbitrary bytes; valid dumps (minidump-synth: threads/contexts, modules+CodeView, unloaded modules, memory, memory64, \
+         memory info, thread names, handles, exception, system/misc/crashpad info, linux text streams; a hand-rolled writer for 40-byte \
+         handle descriptors with object-info chains, memory64, thread info; the in-tree testdata/*.dmp), both byte orders; truncations; \
+         header/directory/stream fields replaced by 0,1,len-1,len,len+1,2^31,2^32-1; cyclic and self-referential RVAs; byte flips. \
+         Non-trivial: the header parses and at least one modelled stream type is present in the directory (its read may fail). \
+         Oracle (per operation): no panic, time budget, largest request <= 32n+64KiB, total <= 2n^2+1024n+4MiB, never > 1 GiB (allocator guard); \
+         model: outcome class and parsed numbers of Minidump::read + 11 stream readers (incl. Crashpad info) + exception print loop + crash address; \
+         the model's exact allocations must occur among the real allocator's requests. \
+         Oracle-only (not modelled): all other streams, contexts, every print, every accessor."
+            .into()
     }
-    fn generate(&self, _tier: Tier, _rng: &mut Rng, _emit: &mut dyn FnMut(String)) {}
-    fn exec(&self, _case: &str) -> ImplResult {
-        ImplResult::default()
+
+    fn generate(&self, tier: Tier, rng: &mut Rng, emit: &mut dyn FnMut(String)) {
+        let scale: u64 = if tier == Tier::Quick { 6 } else { 24 };
+        let cap: usize = if tier == Tier::Quick { 200 * 1024 } else { 1024 * 1024 };
+        // ---- seeds
+        let mut seeds: Vec<Vec<u8>> = Vec::new();
+        let mut big_seeds: Vec<Vec<u8>> = Vec::new();
+        let repo = std::env::var("VERIF_REPO").unwrap_or_else(|_| "/repo".into());
+        if let Ok(rd) = std::fs::read_dir(format!("{repo}/testdata")) {
+            let mut files: Vec<_> = rd.filter_map(|e| e.ok()).map(|e| e.path()).collect();
+            files.sort();
+            for f in files {
+                if f.extension().map(|e| e == "dmp").unwrap_or(false) {
+                    if let Ok(b) = std::fs::read(&f) {
+                        if !b.is_empty() && b.len() <= cap / 2 {
+                            big_seeds.push(b);
+                        }
+                    }
+                }
+            }
+        }
+        for (i, target) in (if tier == Tier::Quick { vec![60_000usize, 150_000] } else { vec![60_000, 150_000, 400_000, 900_000] }).into_iter().enumerate() {
+            big_seeds.push(large_dump(rng, i % 2 == 1, target));
+        }
+        for i in 0..40 * scale {
+            seeds.push(synth_dump(rng, i % 2 == 1));
+        }
+        for i in 0..40 * scale {
+            seeds.push(crafted_dump(rng, i % 4 == 3));
+        }
+        for s in seeds.iter().chain(big_seeds.iter()) {
+            emit(case_line(s, "valid"));
+        }
+        // ---- arbitrary bytes
+        for i in 0..300 * scale {
+            let n = match i % 5 {
+                0 => rng.below(40),
+                1 => rng.below(300),
+                _ => 32 + rng.below(200),
+            } as usize;
+            let mut b: Vec<u8> = (0..n).map(|_| rng.next() as u8).collect();
+            if i % 5 >= 2 && b.len() >= 32 {
+                // plausible header, random rest
+                let be = i % 2 == 0;
+                let mut w = W { buf: Vec::new(), be };
+                w.u32(md::MINIDUMP_SIGNATURE);
+                w.u32(md::MINIDUMP_VERSION);
+                w.u32(*rng.pick(&[0u32, 1, 2, 5, 17, u32::MAX]));
+                w.u32(*rng.pick(&[32u32, 0, 31, n as u32, u32::MAX]));
+                b[..16].copy_from_slice(&w.buf);
+                // make the directory mention modelled stream types now and then
+                let mut at = 32;
+                while at + 12 <= b.len() && rng.chance(2, 3) {
+                    let t = *rng.pick(&[3u32, 4, 5, 6, 9, 12, 14, 16, 17, 24, 7, 15]);
+                    let tb = if be { t.to_be_bytes() } else { t.to_le_bytes() };
+                    b[at..at + 4].copy_from_slice(&tb);
+                    let small = |rng: &mut Rng| (rng.below(n as u64 + 2) as u32);
+                    let (s, r) = (small(rng), small(rng));
+                    b[at + 4..at + 8].copy_from_slice(&if be { s.to_be_bytes() } else { s.to_le_bytes() });
+                    b[at + 8..at + 12].copy_from_slice(&if be { r.to_be_bytes() } else { r.to_le_bytes() });
+                    at += 12;
+                }
+            }
+            emit(case_line(&b, "arbitrary"));
+        }
+        // ---- truncations
+        for s in seeds.iter().take(12 * scale as usize) {
+            for _ in 0..30 {
+                let k = rng.below(s.len() as u64 + 1) as usize;
+                emit(case_line(&s[..k], "truncated"));
+            }
+            for k in [0usize, 1, 31, 32, 33, 43, 44] {
+                if k <= s.len() {
+                    emit(case_line(&s[..k], "truncated"));
+                }
+            }
+        }
+        let heavy = |s: &Vec<u8>, n: u64| if s.len() > 256 * 1024 { (n / 8).max(2) } else { n };
+        for s in &big_seeds {
+            for _ in 0..heavy(s, 6 * scale) {
+                let k = rng.below(s.len() as u64 + 1) as usize;
+                emit(case_line(&s[..k], "truncated"));
+            }
+        }
+        // ---- boundary substitution
+        let subst = |s: &Vec<u8>, count: u64, rng: &mut Rng, emit: &mut dyn FnMut(String)| {
+            let (be, offs) = interesting_offsets(s);
+            if offs.is_empty() {
+                return;
+            }
+            let len = s.len() as u64;
+            let vals = [0u64, 1, len.wrapping_sub(1), len, len + 1, 1 << 31, (1u64 << 32) - 1, 4, 12, len.wrapping_sub(4), 0xffff_fffe];
+            for _ in 0..count {
+                let mut b = s.clone();
+                let nsub = if rng.chance(1, 4) { 2 } else { 1 };
+                for _ in 0..nsub {
+                    let at = *rng.pick(&offs);
+                    let v = (*rng.pick(&vals) & 0xffff_ffff) as u32;
+                    let vb = if be { v.to_be_bytes() } else { v.to_le_bytes() };
+                    b[at..at + 4].copy_from_slice(&vb);
+                    if rng.chance(1, 8) && at + 8 <= b.len() {
+                        // a 64-bit field: all ones
+                        b[at..at + 8].copy_from_slice(&[0xff; 8]);
+                    }
+                }
+                emit(case_line(&b, "boundary"));
+            }
+        };
+        for s in &seeds {
+            subst(s, 22, rng, emit);
+        }
+        for s in &big_seeds {
+            subst(s, heavy(s, 12 * scale), rng, emit);
+        }
+        // ---- byte flips
+        for s in seeds.iter().chain(big_seeds.iter()) {
+            for _ in 0..6 {
+                let mut b = s.clone();
+                if b.is_empty() {
+                    continue;
+                }
+                for _ in 0..1 + rng.below(6) {
+                    let at = rng.below(b.len() as u64) as usize;
+                    b[at] = match rng.below(3) {
+                        0 => 0xff,
+                        1 => 0,
+                        _ => rng.next() as u8,
+                    };
+                }
+                emit(case_line(&b, "flipped"));
+            }
+        }
+    }
+
+    fn model_request(&self, case: &str) -> Option<String> {
+        let (bytes, _) = parse_case(case)?;
+        Some(format!("read {} sizes:{}", hex(&bytes), mem_sizes()))
+    }
+
+    fn same(&self, impl_out: &str, model_out: &str) -> bool {
+        if matches!(impl_out, "SKIPPED" | "RUNAWAY-ALLOC" | "HANG" | "WORKER-DIED") {
+            return true; // no answer to compare; the oracle has reported the case (or it was skipped)
+        }
+        let (Some((il, ir)), Some((ml, mr))) = (impl_out.split_once(" ## "), model_out.split_once(" ## ")) else {
+            return false;
+        };
+        if il != ml {
+            return false;
+        }
+        let Some(reqs) = ir.strip_prefix("req:") else { return false };
+        let Some(allocs) = mr.strip_prefix("allocs:") else { return false };
+        if reqs.ends_with('+') {
+            return true; // the request log overflowed: membership cannot be decided
+        }
+        let mut have: Vec<u64> = reqs.split(',').filter_map(|s| s.parse().ok()).collect();
+        for a in allocs.split(',').filter(|s| !s.is_empty()) {
+            if a.ends_with('~') {
+                continue;
+            }
+            let Some((n, sz)) = a.split_once('*') else { return false };
+            let (Ok(n), Ok(sz)) = (n.parse::<u64>(), sz.parse::<u64>()) else { return false };
+            let bytes = n.saturating_mul(sz);
+            if bytes < meter::LOG_MIN as u64 {
+                continue;
+            }
+            match have.iter().position(|&h| h == bytes) {
+                Some(p) => {
+                    have.swap_remove(p);
+                }
+                None => return false,
+            }
+        }
+        true
+    }
+
+    fn exec(&self, case: &str) -> ImplResult {
+        install_hook();
+        let Some((bytes, cat)) = parse_case(case) else {
+            return ImplResult { out: "bad-case".into(), oracle: vec![("bad-case".into(), case.chars().take(80).collect())], ..Default::default() };
+        };
+        let n = bytes.len();
+        if STUCK.load(std::sync::atomic::Ordering::SeqCst) >= MAX_STUCK {
+            // earlier cases left stuck worker threads behind (each already reported as a violation)
+            return ImplResult { out: "SKIPPED".into(), tags: vec!["skipped-after-stuck-workers".into()], ..Default::default() };
+        }
+        let shared = Arc::new(meter::Shared::default());
+        let (tx, rx) = mpsc::channel();
+        let (sh2, b2) = (shared.clone(), bytes.clone());
+        let t0 = Instant::now();
+        let worker = std::thread::Builder::new()
+            .name("read-case".into())
+            .stack_size(64 << 20)
+            .spawn(move || {
+                let r = run_case(&b2, &sh2);
+                let _ = tx.send(r);
+            })
+            .expect("spawn case thread");
+        let mut res = ImplResult::default();
+        res.tags.push(format!("cat={cat}"));
+        res.tags.push(size_bucket(n).to_string());
+        // poll: a worker parked by the allocator guard is reported at once, a silent one when the
+        // time budget is used up
+        let outcome = loop {
+            match rx.recv_timeout(Duration::from_millis(10)) {
+                Ok(r) => break Some(r),
+                Err(mpsc::RecvTimeoutError::Disconnected) => break None,
+                Err(mpsc::RecvTimeoutError::Timeout) => {
+                    if shared.runaway_request.load(std::sync::atomic::Ordering::SeqCst) != 0 || t0.elapsed() > time_budget(n) {
+                        break None;
+                    }
+                }
+            }
+        };
+        match outcome {
+            Some(r) => {
+                let _ = worker.join();
+                let reqs: Vec<String> = r.a.log.iter().map(|x| x.to_string()).collect();
+                res.out = format!("{} ## req:{}{}", r.line, reqs.join(","), if r.a.log_overflow { "+" } else { "" });
+                res.oracle = r.oracle;
+                res.nontrivial = r.nontrivial;
+                res.tags.extend(r.tags);
+                let n64 = n as u64;
+                // how close the case came to the limits (distribution only)
+                let worst_total = r.a.total.max(r.b.total);
+                let lin = C_TOTAL_LIN * n64 + C_TOTAL;
+                if worst_total > lin && n64 > 0 {
+                    let ratio = (worst_total - lin) as f64 / (n64 as f64 * n64 as f64);
+                    let bucket = if ratio < 0.25 { "<0.25" } else if ratio < 1.0 { "<1" } else if ratio < 2.0 { "<2" } else if ratio < 4.0 { "<4" } else { ">=4" };
+                    res.tags.push(format!("alloc-total-over-linear/n^2{bucket}"));
+                }
+                let worst_single = r.a.max.max(r.b.max);
+                if worst_single > C_SINGLE && n64 > 0 {
+                    let ratio = (worst_single - C_SINGLE) / n64;
+                    let bucket = if ratio < 4 { "<4" } else if ratio < 16 { "<16" } else if ratio < 32 { "<32" } else { ">=32" };
+                    res.tags.push(format!("alloc-single-over-const/n{bucket}"));
+                }
+                let ms = t0.elapsed().as_millis();
+                if ms > 2000 {
+                    res.tags.push("slow>2s".into());
+                }
+            }
+            None => {
+                // the worker is stuck: parked by the allocator guard, or looping. It is leaked
+                // (with whatever it holds), so only a bounded number of them is tolerated.
+                STUCK.fetch_add(1, std::sync::atomic::Ordering::SeqCst);
+                let req = shared.runaway_request.load(std::sync::atomic::Ordering::SeqCst);
+                let op = shared.current_op.lock().map(|g| g.clone()).unwrap_or_default();
+                if req != 0 {
+                    let total = shared.runaway_total.load(std::sync::atomic::Ordering::SeqCst);
+                    res.out = "RUNAWAY-ALLOC".into();
+                    res.oracle.push((
+                        format!("alloc-runaway:{op}"),
+                        format!("{op}: a {n}-byte input made the reader request {req} bytes at once / {total} bytes in total — stopped by the allocator guard (single > {} or total > {})", meter::HARD_SINGLE, meter::HARD_TOTAL),
+                    ));
+                } else if worker.is_finished() {
+                    res.out = "WORKER-DIED".into();
+                    res.oracle.push(("panic".into(), "the case thread died outside catch_unwind (stack overflow / abort path)".into()));
+                } else {
+                    res.out = "HANG".into();
+                    res.oracle.push((format!("hang:{op}"), format!("{op}: no result within {:?} for a {n}-byte input", time_budget(n))));
+                }
+            }
+        }
+        res
+    }
+
+    fn shrink(&self, case: &str, still_fails: &dyn Fn(&str) -> bool) -> String {
+        let Some((mut bytes, cat)) = parse_case(case) else { return case.to_string() };
+        if STUCK.load(std::sync::atomic::Ordering::SeqCst) > 0 {
+            // re-running a case that leaves a stuck worker behind costs up to 1 GiB each time
+            return case.to_string();
+        }
+        let t0 = Instant::now();
+        let mut evals = 0;
+        let mut ok = |b: &[u8], evals: &mut u32| -> bool {
+            *evals += 1;
+            still_fails(&case_line(b, &cat))
+        };
+        let budget = |evals: u32| evals < 160 && t0.elapsed() < Duration::from_secs(45);
+        // 1. cut the tail
+        let mut step = bytes.len() / 2;
+        while step >= 1 && budget(evals) {
+            if bytes.len() > step && ok(&bytes[..bytes.len() - step], &mut evals) {
+                bytes.truncate(bytes.len() - step);
+            } else {
+                step /= 2;
+            }
+        }
+        // 2. zero out blocks (keeps every offset in place)
+        let mut block = (bytes.len() / 4).max(16);
+        while block >= 16 && budget(evals) {
+            let mut at = 32;
+            while at < bytes.len() && budget(evals) {
+                let end = (at + block).min(bytes.len());
+                if bytes[at..end].iter().any(|&x| x != 0) {
+                    let mut c = bytes.clone();
+                    c[at..end].iter_mut().for_each(|x| *x = 0);
+                    if ok(&c, &mut evals) {
+                        bytes = c;
+                    }
+                }
+                at = end;
+            }
+            block /= 2;
+        }
+        case_line(&bytes, &cat)
     }
 }
